@@ -132,11 +132,19 @@ def recognise (s : List Char) : Option Desc :=
 /-- the smallest positive normal `double` (`DBL_MIN`): base and factor below it are refused (iterator_factor.c) -/
 def dblMinS : Rat := 1 / ((2 ^ 1022 : Nat) : Rat)
 
+/-- the number of whole steps of a range is settled: the width is a whole number of steps, or it falls short
+    of the next whole number by more than floating-point rounding can bridge (2^-49 of that number) -/
+def rangeSettled (a b s : Rat) : Bool :=
+  let k := ((b - a) / s).floor.toNat
+  decide ((b - a) / s = ((k : Nat) : Rat)) ||
+    decide (((k + 1 : Nat) : Rat) * (1 / ((2 ^ 49 : Nat) : Rat)) < ((k + 1 : Nat) : Rat) - (b - a) / s)
+
 /-- the sequence a recognised description denotes; `none` where the documentation leaves the meaning open
-    (zero steps, empty or descending ranges, steps finer than 1/100000 of the range, base or factor below `DBL_MIN`) -/
+    (zero steps, empty or descending ranges, steps finer than 1/100000 of the range, a width within rounding
+    below a whole number of steps, base or factor below `DBL_MIN`) -/
 def Desc.den : Desc → Option Den
   | .lin n a b => if 1 ≤ n ∧ n < 4294967295 then some (IterSpec.linear n a b) else none
-  | .range a b s => if a < b ∧ 0 < s ∧ s ≤ b - a ∧ (b - a) / 100000 ≤ s then some (IterSpec.range a b s) else none
+  | .range a b s => if a < b ∧ 0 < s ∧ s ≤ b - a ∧ (b - a) / 100000 ≤ s ∧ rangeSettled a b s = true then some (IterSpec.range a b s) else none
   | .fac n base f init =>
     if dblMinS ≤ base ∧ dblMinS ≤ f ∧ n < 4294967295 then some (IterSpec.factor n base f init) else none
   | .values vs => some (explicit vs)
@@ -154,5 +162,101 @@ def certainlyMalformed (s : List Char) : Bool :=
     | none => false
   else
     (keywordKind name).isNone || !rest.any (fun c => c = '(') || !rest.any (fun c => c = ')')
+
+/-- white space of the "C" locale -/
+def isWs (c : Char) : Bool := c.toNat = 32 || (9 ≤ c.toNat && c.toNat ≤ 13)
+
+/-- the text behind the opening parenthesis does not begin with a count that is followed by `:` or `)`:
+    no digit at all (possibly after a `+`), or something else behind the digits -/
+def badCount (body : List Char) : Bool :=
+  let b := body.dropWhile isWs
+  let b' := if b.head? = some '+' then b.tail else b
+  if (b'.takeWhile isDig).isEmpty then b.head?.isSome
+  else
+    match ((b'.dropWhile isDig).dropWhile isWs).head? with
+    | some x => x != ':' && x != ')'
+    | none => false
+
+/-- **descriptions whose count is malformed**: a `lin` / `fac` keyword, an opening parenthesis, and then
+    either something that is no count at all (`lin()`, `lin(abc)`, `lin(-3 : 0 1)`, `fac(:2)`) or a count
+    that is followed by something else than `:` or `)` (`lin(4 ; 0 1)`, `lin(4 5)`, `fac(3x)`) -/
+def malformedCount (s : List Char) : Bool :=
+  let t := s.dropWhile isWs
+  let name := t.takeWhile isLetter
+  let rest := t.dropWhile isLetter
+  if name.isEmpty ∨ ¬ (keywordKind name = some 0 ∨ keywordKind name = some 2) then false
+  else
+    match rest.dropWhile isWs with
+    | '(' :: body => badCount body
+    | _ => false
+
+/-- **recognised descriptions without a sequence**: a linear source of zero steps, an empty or descending
+    range, a step that is not positive -/
+def Desc.senseless : Desc → Bool
+  | .lin n _ _ => n == 0
+  | .range a b s => decide (b ≤ a) || decide (s ≤ 0)
+  | _ => false
+
+/-! ### profile descriptions (`mpt_iterator_profile`): `lin a b`, `bound l i r`, `poly c… [: s…]` -/
+
+inductive PDesc where
+  | lin (a b : Rat)
+  | bound (l i r : Rat)
+  /-- coefficients (highest power first) and shifts of the argument -/
+  | poly (mults shifts : List Rat)
+  deriving Repr, DecidableEq
+
+/-- canonical profile descriptions: a lower-case keyword, one blank, numbers separated by single blanks; the
+    shifts of a polynomial follow ` : ` -/
+def recogniseProfile (s : List Char) : Option PDesc :=
+  let name := String.ofList (s.takeWhile isLetter)
+  match s.dropWhile isLetter with
+  | ' ' :: body =>
+    if name = "lin" ∨ name = "linear" then
+      match numbers body with
+      | some [a, b] => some (.lin a b)
+      | _ => none
+    else if name = "bound" ∨ name = "boundary" then
+      match numbers body with
+      | some [l, i, r] => some (.bound l i r)
+      | _ => none
+    else if name = "poly" then
+      match splitOn ':' body with
+      | [m] => (numbers m).bind fun ms => if 128 < ms.length then none else some (.poly ms [])
+      | [m, sh] =>
+        if m.getLast? = some ' ' ∧ sh.head? = some ' ' then
+          match numbers m.dropLast, numbers sh.tail with
+          | some ms, some ss => if 128 < ms.length ∨ ms.length ≤ ss.length then none else some (.poly ms ss)
+          | _, _ => none
+        else none
+      | _ => none
+    else none
+  | _ => none
+
+/-- coefficient `j` of a polynomial profile: (shift, multiplier); missing shifts are zero -/
+def polyCoeff (ms ss : List Rat) : List (Rat × Rat) :=
+  (List.range ms.length).map fun j => (ss.getD j 0, ms.getD j 0)
+
+/-- what a profile description denotes over a grid (linear and boundary profiles need two points) -/
+def PDesc.den (grid : List Rat) : PDesc → Option Den
+  | .lin a b => if 2 ≤ grid.length then some (IterSpec.linear (grid.length - 1) a b) else none
+  | .bound l i r => if 2 ≤ grid.length then some (IterSpec.boundary grid.length l i r) else none
+  | .poly ms ss => if grid.isEmpty then none else some (IterSpec.poly grid (polyCoeff ms ss))
+
+def startsCI (s : List Char) (w : String) : Bool := (s.take w.length).map toLower = w.toList
+
+/-- profile descriptions that are malformed under every reading: the text does not begin (after white
+    space, in any case) with one of the three keywords, or a canonical `lin` / `bound` description carries
+    fewer numbers than the profile needs -/
+def profileMalformed (s : List Char) : Bool :=
+  let t := s.dropWhile isWs
+  !(startsCI t "lin" || startsCI t "bound" || startsCI t "poly") ||
+  (match t.dropWhile isLetter with
+   | ' ' :: body =>
+     let name := String.ofList (t.takeWhile isLetter)
+     match numbers body with
+     | some vs => ((name = "lin" ∨ name = "linear") && vs.length < 2) || ((name = "bound" ∨ name = "boundary") && vs.length < 3)
+     | none => false
+   | _ => false)
 
 end Mpt.IterSpec
